@@ -44,6 +44,8 @@ class Cx:
         self._pg = {}
         self.cur = None
         self._ord = {}
+        self._roles = {}
+        self.renamed = {}
 
     # -------------------------------------------------------------- helpers
     def pg(self, fn):
@@ -54,10 +56,31 @@ class Cx:
         return g
 
     def fn(self, suffix):
+        """A function by (suffix of) its path; private helpers are re-found by structural role when the
+        name no longer exists (roles.py)."""
+        c = self._roles.get(suffix)
+        if c is not None:
+            return c
         f = self.prog.one(suffix)
         if f is None:
+            from .roles import ROLES
+            finder = ROLES.get(suffix)
+            if finder is not None:
+                try:
+                    f = finder(self)
+                except AnchorMissing:
+                    f = None
+                if f is not None:
+                    self.renamed[suffix] = fn_name(f)
+        if f is None:
             raise AnchorMissing("function %s" % suffix)
+        self._roles[suffix] = f
         return f
+
+    def sfx(self, suffix):
+        """Actual path of the function playing role `suffix` (for matching call expressions)."""
+        from .an import strip_generics
+        return strip_generics(self.fn(suffix).key)
 
     def need(self, cond, what):
         if not cond:
@@ -190,92 +213,164 @@ def lit_footprint(prog, l):
     return footprint(prog, l[1]) if l[0] in ("is", "in", "notin") else set()
 
 
-def require(cx, site, key, text, accept, kill=True, detail=None, assume=None):
-    """Obligation instance: every path to `site` passes an edge carrying a literal accepted by
-    `accept(lit) -> truthy`, and (if kill) nothing written afterwards can change that literal's value."""
+def _translate_lit(l, mapping):
+    from .an import subst
+    if l[0] not in ("is", "in", "notin"):
+        return l
+    return (l[0], subst(l[1], mapping)) + tuple(l[2:])
+
+
+def expand_call_literal(cx, l, depth=0):
+    """A literal `f(args) == b` over a small pure in-crate predicate f is equivalent to the disjunction,
+    over f's return paths consistent with b, of the conjunction of that path's literals (in the caller's
+    vocabulary). Returns a list of literal lists, or None if f is not such a function."""
+    from .pat import subst_params
+    from .pg import norm_lit
+    if l[0] != "is" or l[1][0] != "call" or depth > 1:
+        return None
+    path, args = l[1][1], l[1][2]
+    ks = cx.prog.short.get(path)
+    if not ks or len(ks) != 1:
+        return None
+    f = cx.facts.fns[ks[0]]
+    if cx.prog.mod.get(f.key) or f.body.local_ty(0) != "bool":
+        return None
+    try:
+        rets = cx.pg(f).returns(limit=64)
+    except OverflowError:
+        return None
+    out = []
+    for lits, v, _ in rets:
+        plits = [(_x[0], subst_params(_x[1], list(args))) + tuple(_x[2:]) for _x in lits if _x[0] in ("is", "in", "notin")]
+        if v[0] == "bool":
+            if v[1] != l[2]:
+                continue
+        else:
+            nl = norm_lit(cx.facts, subst_params(v, list(args)), l[2])
+            if nl == ("const", False):
+                continue
+            if nl[0] != "const":
+                plits.append(nl)
+        out.append(plits)
+    return out or None
+
+
+def _clause_holds(cx, site, accept, kill=True, assume=None, depth=2, start_held=False):
+    """Does the must-pass clause hold at `site`?  Locally (with kill analysis), else - for functions that
+    are not part of the public API - at every in-crate call site of the enclosing function, with the
+    callers' literals translated into the callee's vocabulary and the guard required to survive from the
+    function entry to the site. Returns (ok, witness, accepted literal strings, note)."""
     g = cx.pg(site.fn)
     prog = cx.prog
     accepted = {}
 
+    def acc(l):
+        a = accepted.get(l)
+        if a is None:
+            a = bool(accept(l))
+            if not a:
+                alts = expand_call_literal(cx, l)
+                if alts:
+                    a = all(any(accept(x) for x in alt) for alt in alts)
+            accepted[l] = a
+        return a
+
     def ok_edge(lits):
         r = False
         for l in lits:
-            a = accepted.get(l)
-            if a is None:
-                a = bool(accept(l))
-                accepted[l] = a
-            if a:
+            if acc(l):
                 r = True
         return r
-
-    # first without kills to find which literals are used, then with their footprint as kill set
-    ok, wit = g.guarded(site.at, ok_edge, assume=assume)
+    ok, wit = g.guarded(site.at, ok_edge, assume=assume, start_held=start_held)
+    note = ""
     if ok and kill:
         fp = set()
         for l, a in accepted.items():
             if a and l[0] in ("is", "in", "notin"):
                 fp |= prog.expr_footprint(l[1], site.fn)
-        if fp:
+        if fp or start_held:
             cache = {}
+            fps = fp or getattr(cx, "_ctx_fp", set())
 
             def kb(bi, upto):
                 k = (bi, upto)
                 if k not in cache:
-                    cache[k] = killed_rooted(prog.block_effects(site.fn, bi, upto), fp)
+                    cache[k] = killed_rooted(prog.block_effects(site.fn, bi, upto), fps)
                 return cache[k]
-            ok, wit = g.guarded(site.at, ok_edge, kb, assume=assume)
+            ok, wit = g.guarded(site.at, ok_edge, kb, assume=assume, start_held=start_held)
             if not ok:
-                text = text + " [the guard's inputs may be overwritten between the guard and the site]"
+                note = " [the guard's inputs may be overwritten between the guard and the site]"
+    acc_s = [show_lit(l) for l, a in accepted.items() if a]
+    if ok or depth <= 0 or start_held:
+        return ok, wit, acc_s, note
+    # caller context
+    fn = site.fn
+    if fn.vis == "Public" and not fn.doc_hidden and fn.impl_adt and any(x in fn.impl_adt for x in ("RawNode", "raw_node")):
+        return ok, wit, acc_s, note
+    if fn.vis == "Public":
+        # pub functions of Raft/RaftLog are callable from outside the crate as well: no caller context
+        return ok, wit, acc_s, note
+    callers = callers_of(cx, fn)
+    if not callers:
+        return ok, wit, acc_s, note
+    all_ok = True
+    ctx_acc = []
+    for c in callers:
+        args = call_args(cx, c)
+        mapping = {}
+        for i, a in enumerate(args):
+            if a[0] in ("param", "local", "field"):
+                mapping.setdefault(a, ("param", i + 1, fn.body.local_name(i + 1)))
+
+        def accept_tr(l, mapping=mapping):
+            return accept(_translate_lit(l, mapping))
+        okc, _, accs, _ = _clause_holds(cx, c, accept_tr, kill, None, depth - 1)
+        ctx_acc += accs
+        if not okc:
+            all_ok = False
+            break
+        # the guard must survive from the callee's entry to the site
+        if kill:
+            fp = set()
+            gl = cx.guard_lits(c)
+            for l in gl:
+                if accept_tr(l) and l[0] in ("is", "in", "notin"):
+                    fp |= prog.expr_footprint(_translate_lit(l, mapping)[1], fn)
+            cx._ctx_fp = fp
+            oks, _, _, _ = _clause_holds(cx, site, lambda l: False, True, assume, 0, start_held=True)
+            cx._ctx_fp = set()
+            if not oks:
+                all_ok = False
+                note = " [guard established by the caller may be overwritten before the site]"
+                break
+    if all_ok:
+        return True, None, acc_s + ["(caller) " + x for x in ctx_acc], ""
+    return ok, wit, acc_s, note
+
+
+def require(cx, site, key, text, accept, kill=True, detail=None, assume=None):
+    """Obligation instance: every path to `site` passes an edge carrying a literal accepted by
+    `accept(lit) -> truthy`, and (if kill) nothing written afterwards can change that literal's value."""
+    ok, wit, acc_s, note = _clause_holds(cx, site, accept, kill, assume)
     d = dict(detail or {})
-    d["guard_literals_accepted"] = sorted(show_lit(l) for l, a in accepted.items() if a)[:6]
+    d["guard_literals_accepted"] = sorted(set(acc_s))[:6]
     if not ok:
         d["unguarded_path_blocks"] = wit[:40] if wit else None
         d["dominating_guards"] = sorted(show_lit(l) for l in cx.guard_lits(site))[:12]
-    cx.check(ok, key, text, site, **d)
+    cx.check(ok, key, text + note, site, **d)
     return ok
 
 
 def require_all(cx, site, key, text, clauses, kill=True, detail=None):
     """Conjunction of must-pass clauses (each an accept function); one instance, all must hold."""
-    oks = []
     d = dict(detail or {})
-    g = cx.pg(site.fn)
-    prog = cx.prog
     failed = []
     acc_all = []
-    for ci, (cname, accept) in enumerate(clauses):
-        accepted = {}
-
-        def ok_edge(lits, accepted=accepted, accept=accept):
-            r = False
-            for l in lits:
-                a = accepted.get(l)
-                if a is None:
-                    a = bool(accept(l))
-                    accepted[l] = a
-                if a:
-                    r = True
-            return r
-        ok, wit = g.guarded(site.at, ok_edge)
-        if ok and kill:
-            fp = set()
-            for l, a in accepted.items():
-                if a and l[0] in ("is", "in", "notin"):
-                    fp |= prog.expr_footprint(l[1], site.fn)
-            if fp:
-                cache = {}
-
-                def kb(bi, upto, cache=cache, fp=fp):
-                    k = (bi, upto)
-                    if k not in cache:
-                        cache[k] = killed_rooted(prog.block_effects(site.fn, bi, upto), fp)
-                    return cache[k]
-                ok, wit = g.guarded(site.at, ok_edge, kb)
-                if not ok:
-                    cname = cname + " [guard inputs may be overwritten before the site]"
-        acc_all += [show_lit(l) for l, a in accepted.items() if a]
+    for cname, accept in clauses:
+        ok, wit, acc_s, note = _clause_holds(cx, site, accept, kill)
+        acc_all += acc_s
         if not ok:
-            failed.append((cname, wit))
+            failed.append((cname + note, wit))
     d["guard_literals_accepted"] = sorted(set(acc_all))[:10]
     if failed:
         d["failed_clauses"] = [c for c, _ in failed]
